@@ -298,7 +298,9 @@ func buildC01(tier string) *core.Plan {
 	}
 	nse := int64(len(shapeEdits))
 	shapeSpace := core.Space{Name: "list-of-map-patterns", N: int64(len(shapeParents)) * nse,
-		Desc: func(i int64) any { return map[string]any{"parent": shapeParents[i/nse], "child": []any{shapeEdits[i%nse]}} },
+		Desc: func(i int64) any {
+			return map[string]any{"parent": shapeParents[i/nse], "child": []any{shapeEdits[i%nse]}}
+		},
 		Run: func(c *core.Ctx, i int64) {
 			c01Pair(c, "refMerge-list", shapeParents[i/nse], []any{shapeEdits[i%nse]})
 			c01Pair(c, "refMerge-list", map[string]any{"l": shapeParents[i/nse]}, map[string]any{"l": []any{shapeEdits[i%nse]}})
